@@ -580,3 +580,16 @@ for _p, _only in (('C10', [r'Config::ttl_config$', r'TTLConfig::']), ('C09', [r'
     PROPS[_p]['verus'] = PROPS[_p]['verus'] + ['config']
     PROPS[_p].setdefault('verus_only', {})['config'] = _only
     PROPS[_p]['assumptions'] = PROPS[_p]['assumptions'] + ['unit `config`: a boxed clock is identified by an uninterpreted `which()`; clone_box gives the same clock, SystemClock::boxed() the system clock']
+
+# C10 relies on the expiries an upsert REPORTS (before / after) to keep the ticker in step: Store::update and StoredValue::update belong to it
+PROPS['C10']['verus'] = PROPS['C10']['verus'] + ['store']
+PROPS['C10']['verus_only']['store'] = [r'Store::update$', r'Store::put_with_ttl$', r'Store::delete$']
+PROPS['C10']['kani']['quick'] = PROPS['C10']['kani']['quick'] + ['sv/update_changes_exactly_what_was_requested', 'store/update_n2']
+PROPS['C10']['kani_meta'].update(BND(['store/update_n2']))
+PROPS['C10']['assumptions'] = PROPS['C10']['assumptions'] + STORE_ASSUME
+
+# C06: admission asks the sketch about the hash that CacheD::key_description puts into the command, reads record the hash that
+# mark_key_accessed computes - both must be the CONFIGURED hash of the key
+PROPS['C06']['verus'] = PROPS['C06']['verus'] + ['api']
+PROPS['C06'].setdefault('verus_only', {})['api'] = [r'CacheD::key_description$', r'CacheD::mark_key_accessed$']
+PROPS['C06']['assumptions'] = PROPS['C06']['assumptions'] + API_ASSUME
